@@ -8,6 +8,7 @@ package simsched
 
 import (
 	"errors"
+	"strconv"
 	"sync"
 	"time"
 )
@@ -41,6 +42,7 @@ type ManagedJob struct {
 	cancel   chan struct{}
 	once     sync.Once
 	gen      int
+	seq      int
 	Fired    int
 }
 
@@ -53,6 +55,7 @@ var (
 	mu      sync.Mutex
 	jobs    []*ManagedJob
 	gen     int
+	jobSeq  int
 	handler PanicHandler
 	// Yield is installed by the simulator: schedule point of a job goroutine.
 	Yield func(site string)
@@ -65,6 +68,7 @@ func Reset() {
 	mu.Lock()
 	old := jobs
 	jobs = nil
+	jobSeq = 0
 	gen++
 	mu.Unlock()
 	for _, j := range old {
@@ -120,7 +124,8 @@ func Post(schedule Schedule, job Job, tag interface{}) (*ManagedJob, error) {
 		return nil, errors.New("schedule is empty, never a scheduled time to arrive")
 	}
 	mu.Lock()
-	j := &ManagedJob{tag: tag, schedule: schedule, job: job, cancel: make(chan struct{}), gen: gen}
+	jobSeq++
+	j := &ManagedJob{tag: tag, schedule: schedule, job: job, cancel: make(chan struct{}), gen: gen, seq: jobSeq}
 	jobs = append(jobs, j)
 	mu.Unlock()
 	go j.loop(next)
@@ -142,7 +147,8 @@ func (j *ManagedJob) loop(next time.Time) {
 		case <-timer.C:
 		}
 		if y := Yield; y != nil {
-			y("simsched.fire")
+			// the post order is deterministic; it names the task so that jobs firing at the same instant have a stable order
+			y("simsched.fire#" + strconv.Itoa(j.seq))
 		}
 		select {
 		case <-j.cancel:
